@@ -331,13 +331,22 @@ def diagram_reconfigured(acc):
     os.makedirs(d, exist_ok=True)
     tagless = os.path.join(d, "tagless.puml")
     open(tagless, "w").write("[a] --> [b]\n")
+    def rewrite(path, text):
+        # the diagram is replaced by another one of the SAME size with the SAME modification time (cp -p, rsync -t, a
+        # generator with a fixed SOURCE_DATE_EPOCH): what counts is what the file says now
+        st = os.stat(path)
+        with open(path, "w") as f:
+            f.write(text + "\n" * max(0, st.st_size - len(text)))
+        os.utime(path, ns=(st.st_atime_ns, st.st_mtime_ns))
+        acc.count("diagrams_rewritten_with_equal_size_and_time_stamp")
+
     steps = {
         "rebase-to-missing-package": lambda r, good: r.with_base_module("nope"),
         "rebase-to-package-without-the-components": lambda r, good: r.with_base_module("r.a"),
         "names-are-fully-qualified-now": lambda r, good: r.base_module_included_in_module_names(),
         "point-to-tagless-file": lambda r, good: r.from_file(Path(tagless)),
-        "file-rewritten-without-tags": lambda r, good: (open(good, "w").write("[a] --> [b]\n"), register_puml(good, ["a", "b"], [("a", "b")], must_reject=True)),
-        "file-rewritten-with-other-components": lambda r, good: (open(good, "w").write("@startuml\n[a] --> [zz]\n@enduml\n"), register_puml(good, ["a", "zz"], [("a", "zz")])),
+        "file-rewritten-without-tags": lambda r, good: (rewrite(good, "[a] --> [b]\n"), register_puml(good, ["a", "b"], [("a", "b")], must_reject=True)),
+        "file-rewritten-with-other-components": lambda r, good: (rewrite(good, "@startuml\n[a] --> [zz]\n@enduml\n"), register_puml(good, ["a", "zz"], [("a", "zz")])),
     }
     n = 0
     for mode in (True, False):
@@ -345,7 +354,9 @@ def diagram_reconfigured(acc):
             for second in [None] + list(steps):
                 n += 1
                 good = os.path.join(d, f"good{n}.puml")
-                open(good, "w").write("@startuml\n[a] --> [b]\n@enduml\n")
+                open(good, "w").write("@startuml\n[a] --> [b]\n@enduml\n" + "\n" * 8)
+                if n % 2:
+                    os.utime(good, (1_600_000_000, 1_600_000_000))
                 register_puml(good, ["a", "b"], [("a", "b")])
                 r = DiagramRule(should_only_rule=mode).from_file(Path(good)).with_base_module("r")
                 HUB.case = {"kind": "diagram_reconfigured", "steps": [first, second], "should_only": mode}
